@@ -532,25 +532,48 @@ def run_c08(rep, tier):
     # ---- calc_hash: for every 32-bit CRC value the result is its signed two's-complement reading
     v = z3.BitVec("crc", 64)
 
+    seen_arg = {}
+
     class _Z:
         @staticmethod
         def crc32(b):
+            seen_arg["b"] = b
             return E.SInt(v)
+
+    name_chars = [z3.Int(f"nm{i}") for i in range(4)]
 
     def fn_hash():
         saved = sys.modules.get("zlib")
         sys.modules["zlib"] = _Z
         try:
-            return u.calc_hash("any name")
+            for ch in name_chars:
+                E.ctx().assume(z3.Or(*[ch == a for a in (0x20, 0x09, ord("a"), ord("B"), 0xE9, ord("_"))]))
+            nm = e3.SymStr(name_chars)
+            r = u.calc_hash(nm)
+            return r, seen_arg.get("b"), nm
         finally:
             sys.modules["zlib"] = saved
 
     paths, c = E.explore(fn_hash)
     ob.paths += len(paths)
     for pc, out, asserts in paths:
-        if out[0] != "value" or not isinstance(out[1], E.SInt):
+        if out[0] != "value" or not isinstance(out[1][0], E.SInt):
             problems.append(dict(kind="calc_hash", detail=f"{out[0]}: {out[1]}"))
             continue
+        res_, arg_, nm_ = out[1]
+        # the bytes that are hashed must be the name itself (every character, edge blanks included)
+        if not isinstance(arg_, e3.SymStr) or len(arg_.c) != len(nm_.c):
+            s_ = z3.Solver()
+            s_.add(*asserts)
+            if str(s_.check()) == "sat":
+                m_ = s_.model()
+                txt = "".join(chr(m_.eval(ch, model_completion=True).as_long()) for ch in name_chars)
+                from stationeers_pytrapic import utils as _ru
+
+                if _ru.calc_hash(txt) != hash_signed_ref(txt):
+                    problems.append(dict(kind="calc_hash", detail=f"calc_hash({txt!r}) = {_ru.calc_hash(txt)}, signed CRC-32 of the name is {hash_signed_ref(txt)}"))
+            continue
+        out = (out[0], res_)
         want = z3.If(v >= 2**31, v - 2**32, v)
         r, m = ob.check(asserts + [v >= 0, v < 2**32, out[1].t != want])
         if r == "sat":
@@ -686,6 +709,12 @@ def run_c08(rep, tier):
     d["string_lengths"] = "0..6 (code points 0..255)"
     d["inconclusive"] = [p["detail"] for p in problems if p["kind"] == "inconclusive"]
     return d
+
+
+def hash_signed_ref(txt: str) -> int:
+    from .ic10 import hash_signed
+
+    return hash_signed(txt)
 
 
 def _vf_ord(x):
